@@ -70,11 +70,11 @@ prop('C11', True, "Theorems: failure_stores_nothing, failed_cannot_dump, publish
      "without --keep-failed: when all workers have left, every task has a result or is blocked = failed itself or transitively behind a failed task; joint invariant with the scan ghost of C01), failedT_iff." + TIE + " Runs inject failing task subsets under all flag combinations, follow-up runs and the real `cleanup --failed-only`.",
      EXEC_NOTE + " 'Every independent task completes under --keep-going' is proved relative to the scan obligation (see C01), which the real loop keeps on every extracted path (incl. the failure paths, worker_scans_all) and on every validated history.", "Lean 4 proof + kernel-checked extracted worker-loop paths (exception subtrees) + trace validation")
 prop('C12', True, "Theorems: stop_leaves_no_lock (an exited worker holds no lock, any history), stop_always_enabled (a stop can surface in every live state), stop_changes_nothing_shared, stopping_only_unlocks_and_exits, "
-     "cannot_exit_holding, interrupted_task_has_no_result, state_after_stop_is_regular; bridge stop_mechanisms_use_known_hooks over the table re-extracted from exit_checks.py/execute.py." + TIE +
+     "cannot_exit_holding, interrupted_task_has_no_result, state_after_stop_is_regular, continuation_completes (from the state stops leave behind, a failure-free execute by fresh workers gives every task a result; scan invariant of C01); bridge stop_mechanisms_use_known_hooks over the table re-extracted from exit_checks.py/execute.py." + TIE +
      " Runs raise SystemExit/KeyboardInterrupt inside every task function, inside the wait-loop sleep and from the task-count hook; real processes with real SIGTERM/SIGINT in both tiers.",
      EXEC_NOTE, "Lean 4 proof + kernel-checked extracted worker-loop paths (SystemExit/KeyboardInterrupt subtrees) and stop table + trace validation + real-signal process runs")
 prop('C13', True, "Theorems: crash_always_enabled, crash_preserves, crash_keeps_results_correct, residue_is_own_locks, survivors_skip, recovery (lock cleanup re-establishes the invariant and keeps all results), "
-     "recovery_no_rerun, recovered_task_can_be_locked." + TIE + " Runs kill workers at every gate, then the real `cleanup --locks-only` and a recovery run; the combined history (crash, removeLocks, recovery) is replayed through the model; real SIGKILL of real processes.",
+     "recovery_no_rerun, recovered_task_can_be_locked, recovery_state_ok + recovery_completes (after any kills and cleanup --locks-only, a failure-free execute by fresh workers - the dead stay dead - gives every task a result)." + TIE + " Runs kill workers at every gate, then the real `cleanup --locks-only` and a recovery run; the combined history (crash, removeLocks, recovery) is replayed through the model; real SIGKILL of real processes.",
      EXEC_NOTE + " Kill points inside a single file-system write are C05's.", "Lean 4 proof + trace validation of crash/recovery histories + real SIGKILL process runs")
 
 prop('C04', True, "The lock operations are not modelled by hand: on every run the decision trees of get/release/is_locked/fail/is_failed of file_based_lock, file_keepalive_based_lock, redis_lock and dict_lock "
